@@ -38,9 +38,7 @@ CHECKS = {
                 "obligation checks the extracted reservedKeywords against the ECMAScript reserved words and the globals the generator emits "
                 "unqualified. Tied by broad generated programs (accepted by the compiler, node --check, Node trace = native Go = Lean "
                 "model), the emitted direct-mode skeleton and desugaring temporaries, and the real newVariable through the C16 hook.",
-        "note": "translateExpr, goto, defer, flattened functions (C02), 'no internal error' and 'valid JS' are observed on generated programs, not "
-                "proved. 5 known findings: console / Number / Uint8Array shadowing, tuple-assignment operand order, panic before the "
-                "right-hand side is evaluated.",
+        "note": "translateExpr, goto (functions with goto are always flattened: C02), defer, 'no internal error' and 'valid JS' are observed on generated programs, not proved. After the repair (fix: 0aca1c3 globals the generator emits unqualified are reserved in the root context) reserved_covers_used is a full regenerated-facts obligation; encodeIdent_inj_utf8 makes names_distinct_plain hold for all valid identifiers; round 3 added the operand classification theorems of the desugaring (kept_in_place / everything_else_hoisted / conversion_kept_in_place_wrong). 2 known findings (tuple-assignment operand order; run-time check of an assignment target panics before the right-hand side is evaluated).",
         "technique": "Lean 4 proof (simulation by induction on the reference derivation; allocator invariant) + regenerated-facts obligation + three-way program traces + artefact skeleton ties",
     },
     "C13": {
@@ -53,9 +51,7 @@ CHECKS = {
                 "partial with proved refutations. Tied by compiled table programs under Node vs native Go vs the Lean driver (float bits "
                 "observed through a DataView), nosync natively vs the driver vs the real sync in child processes, exhaustive unicode.To "
                 "over all runes in the thorough tier, and Decl.Blocking == false for every function of the compiled sync/atomic archive.",
-        "note": "div32_full (normalisation bookkeeping) stated, not proved; Ldexp/Frexp/Mod/Remainder and transcendental special cases are "
-                "compared compiled-vs-native only; NaN sign treated as payload. 5 known findings (Trunc x2, Modf x2, "
-                "atomic.Value.CompareAndSwap(nil, .)).",
+        "note": 'After three repairs (fix: 71250f7 Trunc, 5160daf Modf, 517a246 Value.CompareAndSwap) trunc_eq, modf_eq, value_cas_eq hold for all arguments and div32_correct is proved for all operands; Ldexp/Frexp have partial exact models (ldexp_agree, frexp_normal, ldexp_frexp). Mod/Remainder and transcendental special cases are compared compiled-vs-native only; NaN sign treated as payload. No known findings left.',
         "technique": "Lean 4 proof + regenerated-facts obligation (unicode tables) + differential correspondence (compiled programs vs native Go; nosync vs real sync)",
     },
     "C08": {
@@ -81,9 +77,7 @@ CHECKS = {
                 "Tied by generated multi-package programs (all DAGs on <= 4 packages in the thorough tier, blocking initialisers, linkname "
                 "edges in both directions) GopherJS vs the model's exact trace vs the allowed-set predicate vs native Go, the real "
                 "ParseGoLinknames on generated files, and the structure of the emitted JS.",
-        "note": "Trusted: go/types InitOrder; the runtime closure is assumed not to suspend (it is called synchronously); the JS save/restore "
-                "chain itself is C02's subject. 2 known findings: an exported bodyless linkname function is uncallable from other packages; "
-                "an implementation package with a dot in its last path element is unreachable.",
+        "note": "Trusted: go/types InitOrder; the JS save/restore chain itself is C02's subject. Regenerated-facts obligation (C10Env): no initialiser of the runtime closure can suspend (read from the compiled archives on every run) - the hsync hypothesis of init_once_after_imports, shown necessary by boot_sync_needs_hsync. After two repairs (fix: 23b59e1 exported bodyless linkname functions, cf9f7cf %2e-escaped import paths) linkname_resolves and linkname_split are full strength; GoLinknameSet.Add conflicts modelled. No known findings left.",
         "technique": "Lean 4 proof (graph induction, small-step machine invariants over all schedules) + differential correspondence (programs, real linkname parser, emitted-JS structure)",
     },
     "C11": {
